@@ -147,9 +147,14 @@ def run(program, rep, tier, sleep_only=False):
                               'the timer is assigned something other than 0',
                               line=n.lineno)
     rep.floor('C08.writes', 'writes of _timer', n_w, 3)
+    # (a default filled in under `if dt is None:` leaves every given dt alone)
+    defaulting = {id(s_) for i_ in ast.walk(f.node) if isinstance(i_, ast.If)
+                  and norm(i_.test) == f'{dtp} is None' and not i_.orelse
+                  for s_ in i_.body}
     rebound = any(isinstance(n, (ast.Assign, ast.AugAssign)) and any(
         norm(t) == dtp for t in (n.targets if isinstance(n, ast.Assign)
-                                 else [n.target])) for n in ast.walk(f.node))
+                                 else [n.target])) and id(n) not in defaulting
+        for n in ast.walk(f.node))
     rep.check(not rebound, 'C08.writes', site, f'{dtp} parameter',
               'dt is not modified inside process()',
               'process() rebinds its dt parameter', line=f.node.lineno)
